@@ -73,4 +73,18 @@ TABLE = {
         "text": "MC_Tlog explores all sequences of up to 4 encodable/unencodable entries with a transport failure after any prefix of any write and checks every cut point of every reachable file against an abstract reader (the 'old' variant shows the stray timestamp of the pinned commit). Real logs (times around microsecond boundaries, before 1970, raw and dialect frames) are written with an error at the k-th underlying write for every k and with unencodable entries; bytes after each call are compared with BE64(micros) + Marshal(frame); every byte prefix of every log is read back and must yield exactly the complete entries, then an error.",
         "note": "Trusted: MavFrame parser, Wide 64-bit arithmetic; quick samples 10 logs (every cut of short files, every third cut of long ones).",
     },
+    "C17": {
+        "engine": "wire",
+        "design_ref": "DESIGN.md section 4, C17",
+        "technique": "complete enumeration by the real code (all 19 dialects x all 2^24 ids, all message types, all enum constants) validated by the PDialect TLA+ monitor with TLC; spec-derived CRC_EXTRA vs published table",
+        "text": "The finite universe is enumerated completely: every shipped dialect is initialised and asked for every id in 0..2^24-1 and the hit list must equal the declared messages; each message's extended size (spec-derived) must fit 255; every (message name, id) across dialects must be one Go type; every enum constant name must have one value across dialects; CRC_EXTRA of standard messages (library value and spec-derived value) must equal the published table; 13 user dialects with injected duplicates and malformed structs must be rejected at Initialize exactly when the spec's WellFormedDialect says so.",
+        "note": "Trusted: the published CRC_EXTRA table transcribed into PDialect!Golden (about 190 ids); reflection as the definition source.",
+    },
+    "C19": {
+        "engine": "wire",
+        "design_ref": "DESIGN.md section 4, C19",
+        "technique": "EnumText TLA+ monitor (render/parse rules, wide 64-bit values as byte sequences, decimal rendering in TLA+) checked for satisfiability by TLC; MarshalText/UnmarshalText/String of every shipped enum type probed and validated by TLC",
+        "text": "Every defining enum type found in /repo/pkg/dialects at check time (249) is probed: every constant, for bitmasks zero and seeded unions of the defined flags, for ordinary enums boundary and seeded values over the whole uint64 range, and junk texts; TLC judges round trip, name rendering, literal decimal rendering (below 2^63), flag-name lists split at ' | ', and rejection of junk.",
+        "note": "Trusted: bitmask-ness inferred from the generated MarshalText (XML not shipped); values sampled, not all 2^64.",
+    },
 }
